@@ -14,6 +14,7 @@ import Noodles.Bam.DriverC05
 import Noodles.Bgzf.DriverC14
 import Noodles.Vcf.DriverC09
 import Noodles.Sam.DriverC06
+import Noodles.Util.DriverC20
 namespace Noodles
 open Noodles.Wire
 
@@ -33,6 +34,7 @@ def dispatch (line : String) : String :=
   | "c14" :: rest => Bgzf.SM.handleC14 rest
   | "c09" :: rest => Vcf.Driver.handle rest
   | "c06" :: rest => Sam.Drv.handleC06 rest
+  | "c20" :: rest => Util.handleC20 rest
   | _ => "bad-suite"
 
 end Noodles
